@@ -116,11 +116,21 @@ pub fn generate(seed: u64, fault_free: bool) -> DictOut {
         dicts.push(name);
     }
 
+    // most sessions start with a list of keys for the de-duplicating and grouping functions
+    if g.rng.chance(2, 3) {
+        let name = g.fresh("l");
+        let n = 2 + g.rng.below(5);
+        let ks: Vec<Ex> = (0..n).map(|_| key!()).collect();
+        if g.push("list-of-keys", declare(&name, Ex::List(ks)), vec![]).is_ok() {
+            lists.push(name);
+        }
+    }
+
     let mut attempts = 0;
     while g.script.stmts.len() < n_ops && attempts < 200 {
         attempts += 1;
         let d = g.rng.pick(&dicts).clone();
-        let choice = g.rng.weighted(&[10, 10, 8, 6, 6, 5, 5, 4, 4, 4, 3, 4, 4, 3, 3, 3, 3, 2]);
+        let choice = g.rng.weighted(&[10, 10, 8, 6, 6, 5, 5, 4, 4, 4, 3, 4, 3, 6, 6, 3, 3, 2]);
         let r = match choice {
             0 => {
                 nontrivial = true;
@@ -166,7 +176,7 @@ pub fn generate(seed: u64, fault_free: bool) -> DictOut {
             7 => {
                 // binary dict operators, in place or into a new variable
                 let other = g.rng.pick(&dicts).clone();
-                let op = g.rng.pick(&["||", "&&", "--"]).to_string();
+                let op = g.rng.pick(&["||", "&&", "--", "||+"]).to_string();
                 if g.rng.chance(1, 2) {
                     g.push("dict-op-assign", Ex::OpAssign(false, Box::new(lv(&d)), op, Box::new(var(&other))), vec![])
                 } else {
@@ -245,7 +255,23 @@ pub fn generate(seed: u64, fault_free: bool) -> DictOut {
                 }
                 let l = g.rng.pick(&lists).clone();
                 nontrivial = true;
-                match g.rng.below(4) {
+                match g.rng.below(7) {
+                    // group_all returns its groups in hash order: observe the number of classes and
+                    // the sorted class sizes; classify is the same partition as a dictionary
+                    4 => g.push("group_all-count", call("len", vec![call("group_all", vec![var(&l), var("id")])]), vec![]),
+                    5 => g.push(
+                        "group_all-sizes",
+                        call("sort", vec![bin(call("group_all", vec![var(&l), var("id")]), "map", var("len"))]),
+                        vec![],
+                    ),
+                    6 => {
+                        let name = g.fresh("d");
+                        let r = g.push("classify", declare(&name, call("classify", vec![var(&l), var("id")])), vec![]);
+                        if let Ok(Ok(_)) = r {
+                            dicts.push(name);
+                        }
+                        r
+                    }
                     0 => g.push("unique", call("unique", vec![var(&l)]), vec![]),
                     1 => g.push("count_distinct", call("count_distinct", vec![var(&l)]), vec![]),
                     2 => {
